@@ -613,3 +613,18 @@ Theorem c10_aborted_save_drops_view_refuted :
   fst r = false /\ cache (snd r) 0 = None /\ raw (snd r) 0 = 0 /\ fst r2 = true /\ raw (snd r2) 0 = 0 /\
   fst q = false /\ cache (snd q) 0 = Some [1] /\ fst q2 = false /\ cache (snd q2) 0 = Some [1].
 Proof. exact aborted_save_drops_view_refuted. Qed.
+
+(** Header versions of lumps (round 5, after fix 11d408c: the static-prop writer sets the game lump's header version).  They are
+    cells of the file no look touches.  If every store a writer makes into a header puts there the number the file holds (the
+    writer stores the number the reader recorded for this object: generated list [bsp_version_stores], obligations
+    [writers_store_only_the_header_version_the_reader_recorded], [recorded_version_has_the_header_number_of_the_file]), look + save
+    leaves every lump version as it was. *)
+Theorem c10_header_version_store_of_recorded_number_is_invisible : forall (V : Type) (stores : list (nat * V)) (hver : nat -> V),
+  (forall p, In p stores -> snd p = hver (fst p)) -> forall l, save_versions stores hver l = hver l.
+Proof. exact save_versions_recorded_identity. Qed.
+
+(** A writer that stores another number (7 for a lightmapped layout whose header says 10) changes the header. *)
+Theorem c10_header_version_store_of_other_number_refuted :
+  save_versions [(65, 7)] (fun l => if Nat.eqb l 65 then 10 else 0) 65 = 7 /\
+  save_versions [(65, 10)] (fun l => if Nat.eqb l 65 then 10 else 0) 65 = 10.
+Proof. exact save_versions_other_number_refuted. Qed.
